@@ -42,7 +42,11 @@ impl Clock for RealTimeClock {
 pub struct GenericTokenBucket(TokenCount);
 
 impl GenericTokenBucket {
-    const MAX_TOKENS: u32 = 100;
+    /* The capacity must be larger than the smallest amount that is ever requested (the DNS
+     * listener charges at least 200 tokens per rate limited reply), otherwise nothing is ever
+     * granted.  This allows a burst of 5 minimum sized replies.
+     */
+    const MAX_TOKENS: u32 = 1000;
     const TOKENS_PER_SECOND: u32 = 2;
 
     pub const fn new() -> Self {
